@@ -149,7 +149,9 @@ Section VisitorModel.
   | NhErrNoServer                 (* "xtcp server for [%s] doesn't exist" *)
   | NhErrUser                     (* "xtcp visitor user [%s] not allowed for [%s]" *)
   | NhErrAuth                     (* "xtcp connection of [%s] auth failed" *)
-  | NhNotified (name sid : bytes). (* session inserted, sid sent on the owner sidCh *)
+  | NhNotified (name sid : bytes) (* session inserted, sid sent on the owner sidCh *)
+  | NhUndelivered.                (* all checks passed, but nobody received on sidCh within NatHoleTimeout:
+                                     the session inserted for the wait is deleted again, nothing is sent *)
 
   Definition vnh_out_is_err (o : vnh_out) : bool :=
     match o with NhErrNoServer | NhErrUser | NhErrAuth => true | _ => false end.
@@ -164,9 +166,11 @@ Section VisitorModel.
   Definition vnh_close_client (s : vnh_state) (name : bytes) : vnh_state :=
     {| nh_cfgs := vdel name (nh_cfgs s); nh_sessions := nh_sessions s |}.
 
-  (* HandleVisitor up to and including the send on sidCh.  [sid] is GenSid()'s value (oracle). *)
+  (* HandleVisitor up to and including the hand-over of the sid on sidCh.  [sid] is GenSid()'s value (oracle);
+     [delivered] is the outcome of "select { case sidCh <- sid: ... case <-time.After(NatHoleTimeout) }"
+     (whether the owner's goroutine was still receiving: environment, oracle). *)
   Definition vnh_handle_visitor (s : vnh_state) (name : bytes) (ts : Z) (sign : bytes) (pre : bool)
-             (user sid : bytes) : vnh_state * vnh_out :=
+             (user sid : bytes) (delivered : bool) : vnh_state * vnh_out :=
     if pre then
       match vget name (nh_cfgs s) with
       | None => (s, NhErrNoServer)
@@ -180,7 +184,9 @@ Section VisitorModel.
       | Some cfg =>
           if negb (bytes_eqb sign (hash (nc_sk cfg) ts)) then (s, NhErrAuth)
           else if negb (vmem user (nc_allow cfg)) && negb (vmem vstar (nc_allow cfg)) then (s, NhErrUser)
-          else ({| nh_cfgs := nh_cfgs s; nh_sessions := vset sid name (nh_sessions s) |}, NhNotified name sid)
+          else if delivered
+               then ({| nh_cfgs := nh_cfgs s; nh_sessions := vset sid name (nh_sessions s) |}, NhNotified name sid)
+               else (s, NhUndelivered)
       end.
 
   (* defer delete(c.sessions, sid) when HandleVisitor returns *)
@@ -208,7 +214,7 @@ Section VisitorModel.
   | SRegister (rid : bytes) (k : pkind) (name sk : bytes) (allow : list bytes)
   | SClose (rid name : bytes)
   | SVisitorConn (rid name : bytes) (ts : Z) (sign : bytes) (use_enc use_comp : bool) (cid : Z) (enc_ok : bool)
-  | SNatHole (rid name : bytes) (ts : Z) (sign : bytes) (pre : bool) (sid : bytes)
+  | SNatHole (rid name : bytes) (ts : Z) (sign : bytes) (pre : bool) (sid : bytes) (delivered : bool)
   | SSessionEnd (sid : bytes)
   | SAccept (name : bytes).
 
@@ -296,12 +302,12 @@ Section VisitorModel.
             let '(vm', o) := vm_new_conn (s_vm s) name cid ts sign ue uc user enc_ok in
             ({| s_users := s_users s; s_pxys := s_pxys s; s_vm := vm'; s_nh := s_nh s |}, OVis o)
         end
-    | SNatHole rid name ts sign pre sid =>
+    | SNatHole rid name ts sign pre sid dl =>
         (* handleNatHoleVisitor: the user is the login user of the session the message arrived on *)
         match vget rid (s_users s) with
         | None => (s, ONoSession)
         | Some user =>
-            let '(nh', o) := vnh_handle_visitor (s_nh s) name ts sign pre user sid in
+            let '(nh', o) := vnh_handle_visitor (s_nh s) name ts sign pre user sid dl in
             ({| s_users := s_users s; s_pxys := s_pxys s; s_vm := s_vm s; s_nh := nh' |}, ONh o)
         end
     | SSessionEnd sid =>
@@ -334,7 +340,7 @@ Section VisitorModel.
   Definition sys_events (op : sop) (o : sout) : list vevent :=
     match op, o with
     | SVisitorConn _ name _ _ _ _ cid _, OVis VOk => [EvQueued name cid]
-    | SNatHole _ _ _ _ _ _, ONh (NhNotified name sid) => [EvSid name sid]
+    | SNatHole _ _ _ _ _ _ _, ONh (NhNotified name sid) => [EvSid name sid]
     | SAccept name, OAccepted c => [EvBackend name (vc_id c)]
     | _, _ => []
     end.
